@@ -120,7 +120,11 @@ fn main() {
     if args.len() < 2 { eprintln!("usage: replay <file.json> [timeout_s]"); std::process::exit(2); }
     let text = match std::fs::read_to_string(&args[1]) { Ok(t) => t, Err(e) => { eprintln!("cannot read {}: {e}", args[1]); std::process::exit(2); } };
     let v: serde_json::Value = match serde_json::from_str(&text) { Ok(v) => v, Err(e) => { eprintln!("bad json: {e}"); std::process::exit(2); } };
-    let timeout = args.get(2).and_then(|s| s.parse::<u64>().ok()).unwrap_or(10);
+    let mut timeout = args.get(2).and_then(|s| s.parse::<u64>().ok()).unwrap_or(10);
+    // a search runs many histories: its own budget bounds it, the watchdog only guards a single spinning call
+    if v.get("kind").and_then(|k| k.as_str()) == Some("search") {
+        timeout = timeout.max(v.get("budget_ms").and_then(|x| x.as_u64()).unwrap_or(20000) / 1000 + 15);
+    }
     let (tx, rx) = mpsc::channel();
     std::thread::spawn(move || { let _ = tx.send(run(v)); });
     match rx.recv_timeout(Duration::from_secs(timeout)) {
